@@ -612,6 +612,41 @@ pub fn run(tier: Tier) -> i32 {
                 .set("packets_text", J::Arr(texts)),
         );
     }
+    // scale class: many partial reassemblies at once (first slices of K distinct message ids), then 4 s of updates
+    {
+        let mut hist: Vec<(usize, usize, u8, u8, usize)> = vec![];
+        for role in 0..2 {
+            for st in [0usize, 1] {
+                for (ty, ch) in [(3u8, 0u8), (2, 1), (2, 2)] {
+                    for k in [31usize, 32, 33, 34, 40, 64, 80] {
+                        hist.push((role, st, ty, ch, k));
+                    }
+                }
+            }
+        }
+        let r = explore::sweep(hist.len(), |i| {
+            let (role, st, ty, ch, k) = hist[i];
+            let pk: Vec<Hostile> = (0..k).map(|m| slice_pkt(ty, 200 + m as u64, ch, 100 + m as u64, 0, 2, 1200, 1200)).collect();
+            let refs: Vec<&Hostile> = pk.iter().collect();
+            let (o, v) = run_case(&states[role * 8 + st].2, &refs);
+            (h64(&(o, role, st, ty, k)), v)
+        });
+        rep.add_sweep("many-partial-messages", r.cases, r.distinct_outcomes, 4, vec!["first slices of K in {31,32,33,34,40,64,80} distinct message ids, then follow-up API calls incl. update(4 s)".into()]);
+        for (i, v) in r.found {
+            let (role, st, ty, ch, k) = hist[i];
+            rep.violation(
+                "many-partial-messages",
+                v,
+                J::obj()
+                    .set("kind", J::s("hostile"))
+                    .set("role", J::i(role as u64))
+                    .set("state", J::i(st as u64))
+                    .set("state_name", J::s(STATE_NAMES[st]))
+                    .set("packets", J::Arr((0..k).map(|m| J::s(hex(&slice_pkt(ty, 200 + m as u64, ch, 100 + m as u64, 0, 2, 1200, 1200).bytes))).collect()))
+                    .set("packets_text", J::Arr(vec![J::s(format!("first slices (n=2) of {} distinct message ids on channel {}", k, ch))])),
+            );
+        }
+    }
     rep.finish()
 }
 
